@@ -123,7 +123,9 @@ impl<S> Command<S> {
     /// Create a new getter provider.
     ///
     /// A getter provider is a variable command that is not intended to be invoked directly -
-    ///     in fact, the variable command will panic the program if it is invoked.
+    ///     invoking it is an error.
+    /// (Its name is chosen so that it is hard to type, but with suitable category codes
+    ///     any name can be typed.)
     /// Instead the provider is included in a VM's initial commands so that
     ///     the VM has a reference to the getters inside the command.
     /// If a variable with the same getters is subsequently inserted into the commands map
@@ -132,11 +134,19 @@ impl<S> Command<S> {
     pub fn new_getter_provider<T: SupportedType>(
         ref_fn: RefFn<S, T>,
         ref_mut_fn: MutRefFn<S, T>,
-    ) -> Command<S> {
+    ) -> Command<S>
+    where
+        S: TexlangState,
+    {
         SupportedType::new_command(
             ref_fn,
             ref_mut_fn,
-            Some(IndexResolver::Dynamic(|_, _| panic!())),
+            Some(IndexResolver::Dynamic(|token, input| {
+                Err(input.fatal_error(error::SimpleTokenError::new(
+                    token,
+                    "this command is internal to the interpreter and cannot be used in TeX source",
+                )))
+            })),
         )
     }
 
